@@ -12,7 +12,8 @@ Sites == {"literal", "shl", "shl-lhs", "shr", "div", "div-lhs", "mod", "mul", "a
           "seg-redefine", "seg-redefine-moved", "bank-redefine",       \* a definition repeated after code was emitted to it
           "seg-target-low", "seg-target-high", "loop-nested",
           "macro-recursion-untaken", "macro-mutual-untaken",
-          "mixed-types", "mixed-types-insn", "macro-value", "seg-start-string"}          \* operands no pass can ever make sense of      \* recursion only through a branch that is not taken (the analysis mode visits it)
+          "mixed-types", "mixed-types-insn", "macro-value", "seg-start-string",
+          "deep-braces", "deep-parens", "long-chain", "nested-calls", "unclosed-parens"}      \* size, not value: recursion and backtracking          \* operands no pass can ever make sense of      \* recursion only through a branch that is not taken (the analysis mode visits it)
 NumericSites == {"literal", "shl", "shl-lhs", "shr", "div", "div-lhs", "mod", "mul", "add", "sub", "neg",
                  "align", "loop", "setpc", "seg-start", "seg-pc", "bank-size", "bank-fill", "byte", "branch", "loop-nested"}
 (* argument classes (rendered by the harness): zero, minus one, one, 63, 64, 65, 2^16 (the size of the address space), 2^31, 2^63-1, -2^63 (as 0 - 2^63-1 - 1),
@@ -30,7 +31,8 @@ Ideal(c) ==
     [] c.site \in {"macro-recursion", "macro-mutual"} -> "diagnostic"
     [] c.site \in {"seg-target-low", "seg-target-high"} -> "diagnostic"
     [] c.site \in {"mixed-types", "mixed-types-insn", "macro-value", "seg-start-string"} -> "diagnostic"
-    [] c.site \in {"seg-redefine", "seg-redefine-moved", "bank-redefine"} -> "diagnostic"   \* one image cannot hold both definitions    \* never "nothing emitted, build succeeds"          \* code of a relocated segment outside $0000-$FFFF on its target side
+    [] c.site \in {"seg-redefine", "seg-redefine-moved", "bank-redefine"} -> "diagnostic"
+    [] c.site \in {"nested-calls", "unclosed-parens"} -> "diagnostic"   \* one image cannot hold both definitions    \* never "nothing emitted, build succeeds"          \* code of a relocated segment outside $0000-$FFFF on its target side
     [] c.site = "align" /\ c.arg \in {"0", "-1", "-2^63"} -> "diagnostic"
     [] c.site \in {"div", "mod"} /\ c.arg = "0" -> "value-or-diagnostic"
     [] c.arg \in {"wide-dec", "wide-hex", "wide-bin"} -> "diagnostic"
